@@ -93,13 +93,16 @@ class Monitor(object):
         if any(r[0] == ev for r in self.tables[y][g]):
             return None
         import re
-        if not re.match(r'^(\d+|\d{1,3}(\.\d\d?)?[KkM])$', event):
+        m = re.match(r'^(?:(\d+)|(\d{1,3}(?:\.\d\d?)?)([KkM]))$', event)
+        if not m:
             return None
-        try:
-            d = self.get_distance(ev)
-        except Exception:
-            return None
-        return None if d is None else d
+        # the distance the spelling denotes, parsed here (not with the library's get_distance): whole metres for a bare
+        # number, kilometres x 1000, miles x 1609 (the library's own round figure; rows sit at 1609.344)
+        from decimal import Decimal
+        if m.group(1):
+            return int(m.group(1))
+        q = Decimal(m.group(2))
+        return int(q * 1000) if m.group(3) in 'Kk' else int(q * 1609)
 
     def where(self, S, L, d_m):
         if not S:
@@ -289,6 +292,20 @@ def run_shard(ctx, spec):
             attach.call(a.wma_world_best, g, code, year=y)
             for age in ages[:2]:
                 attach.call(a.wma_age_factor, g, age, code, year=y)
+    # history: open bests asked back to back in random order (no tabulated lookup in between), and a factor asked right
+    # after a best for an unrelated distance - whatever one lookup leaves on the shared grader must not steer the next
+    pool = [str(d) for d in sorted(ds)[:: max(1, len(ds) // 1500)]] + road_codes('quick', rnd, part, nparts)[:600]
+    for (y, g) in combos:
+        order = list(pool)
+        rnd.shuffle(order)
+        prev = None
+        for code in order:
+            attach.call(a.wma_world_best, g, code, year=y)
+            if prev is not None and rnd.random() < 0.3:
+                attach.call(a.wma_age_factor, g, rnd.choice(ages), prev, year=y)
+                attach.call(a.wma_world_best, g, code, year=y)
+            prev = code
+            ctx.count('eval.back-to-back-best')
     if part == 0:
         for age in (5, 10, 15, 20, 25, 30, 40, 58, 60, 70, 85, 90, 105, 110, 120):
             for code in ('20', '42', '49', '75', '150', '350', '2400', '7000', '11K', '5.3M', '30000', '150001', '250000', '400000', '260K', '249M'):
